@@ -54,6 +54,7 @@ AUTOMUT_TRIAGE = [
 
 def run(chk):
     repo = chk.repo
+    cm.schema(chk, repo, "C20")
     d1_purity(chk, repo)
     d2_geometry(chk, repo)
     d3_orientation(chk, repo)
